@@ -176,8 +176,32 @@ class V:
         return self.rt.op(("cmp", "NotEq"), self.term, term_of(o))
 
     def __iter__(self):
-        # opaque values are not iterated natively (the old sequence protocol through __getitem__ would never stop)
-        raise LogExc(("unsupported", "iteration of an opaque value"))
+        """Iteration mirrors pysem.for_loop: an `iter` event, then one `next` decision per step
+        (0 exhausted / 1 item / 2 raises)."""
+        rt, term = self.rt, self.term
+        k = rt.occ(("iter",))
+        rt.event("iter", term, k)
+        if rt.choose(("raises", "iter", term, k)):
+            raise LogExc(("exc", "iter", term, k))
+        it = ("iterator", term, k)
+
+        class It:
+            n = 0
+
+            def __iter__(self_):
+                return self_
+
+            def __next__(self_):
+                rt.event("next", it, self_.n)
+                r = rt.choose(("next", it, self_.n))
+                if r == 2:
+                    raise LogExc(("exc", "next", it, self_.n))
+                if r == 0 or self_.n >= 8:
+                    raise StopIteration
+                v = V(rt, ("item", it, self_.n))
+                self_.n += 1
+                return v
+        return It()
 
 
 for _n, _d in dict(Add="add", Sub="sub", Mult="mul", Div="truediv", FloorDiv="floordiv", Mod="mod", Pow="pow",
